@@ -261,6 +261,7 @@ def run(chk):
     setcookie_rules(chk, repo)
     hunt3_rules(chk, repo)
     hunt4_rules(chk, repo)
+    hunt5_rules(chk, repo)
 
 
 def identity_rules(chk, repo):
@@ -339,6 +340,61 @@ def identity_rules(chk, repo):
         else:
             chk.ok("C16.maxage", c, "the Max-Age value is bounded before it meets float arithmetic")
     chk.expect_count("C16.maxage", n_m, 1, "Max-Age conversions")
+
+
+def hunt5_rules(chk, repo):
+    """Rules written after the fifth defect hunt (F294-F296)."""
+    CL = "aiohttp/client.py"
+    DG = "aiohttp/client_middleware_digest_auth.py"
+    # ---- C16.store.every: the Set-Cookie of every response received reaches the jar --------------------------------------------------------------------
+    # A client middleware may consume a response and send the request again (the 401 of a digest challenge commonly opens the session).  The jar
+    # is fed where a response is received - the innermost handler the middleware chain wraps - not where the chain's result comes back.
+    inner = repo.func_opt(CL, "_connect_and_send_request")
+    if inner is None:
+        chk.analysis_error("C16.store.every: the innermost request handler `_connect_and_send_request` was not found in client.py")
+    else:
+        ups = [c for c in prog.calls_in(inner.node) if isinstance(c.func, ast.Attribute) and c.func.attr in ("update_cookies_from_headers", "update_cookies")]
+        foreign = [norm.raw(i.test) for c in ups for i in prog.enclosing(c, (ast.If,)) if "cookie" not in norm.raw(i.test).lower()]
+        if ups and not foreign:
+            chk.ok("C16.store.every", ups[0], "the response handler below the middleware chain stores the Set-Cookie headers of every response it receives")
+        else:
+            chk.violation("C16.store.every", inner, "return resp", "req._session._cookie_jar.update_cookies_from_headers(resp._raw_cookie_headers, resp.url) in _connect_and_send_request()",
+                          "the jar is updated from the response the middleware chain returns only: a `Set-Cookie: JSESSIONID=...` sent together with a 401 Digest challenge is consumed with that response by DigestAuthMiddleware, never reaches the jar, and no later request of the session carries it - without the middleware the same 401 stores the cookie")
+    call = repo.func(DG, "DigestAuthMiddleware.__call__")
+    g = cfg_of(call.node)
+    sends = [n for n in g.nodes if n.in_finally_copy is None and n.kind == "stmt" and K.node_has(n, "await handler(request)") and prog.enclosing(n.ast, (ast.For, ast.While))]
+    fresh = [n for n in g.nodes if n.kind == "stmt" and any(isinstance(c.func, ast.Attribute) and c.func.attr in ("_update_cookies", "update_cookies") and norm.raw(c.func.value) == "request" for c in K.node_calls(n))]
+    rels = [n for n in g.nodes if n.kind == "stmt" and K.node_has(n, "response.release()")]
+    if sends and rels:
+        p_ = g.find_path(rels, lambda n: n in sends, lambda n: n in fresh, EXPLICIT)
+        if p_ is None and fresh:
+            chk.ok("C16.store.every", fresh[0].ast, "DigestAuthMiddleware: the retry of the challenged request carries the cookies the challenge response has just set")
+        else:
+            chk.violation("C16.store.every", sends[0].ast, K.short(sends[0].ast), "request._update_cookies(<what the jar now attaches to request.url>) before the retry",
+                          "the authenticated retry is the same request object with its old Cookie header: the session cookie the 401 has just set is not sent with it (the server sees an authenticated request without its session)", path=g.fmt_path(p_) if p_ else None)
+    # ---- C16.identity.path: two cookies whose Path differs are two cookies (RFC 6265 5.3 step 11) -------------------------------------------------------
+    uc = repo.func(MOD, f"{CJ}.update_cookies")
+    merges = [a for a in ast.walk(uc.node) if isinstance(a, ast.Assign) and norm.raw(a.targets[0]) == "path" and isinstance(a.value, ast.Call) and isinstance(a.value.func, ast.Attribute)
+              and a.value.func.attr in ("rstrip", "strip") and norm.raw(a.value.func.value) == "path"]
+    kdefs = norm.fn_defs(uc.node)
+    keyed = [a for a in ast.walk(uc.node) if isinstance(a, (ast.Subscript,)) and norm.raw(a.value) == "self._cookies" and (
+        "path" in norm.raw(a.slice) or (isinstance(a.slice, ast.Name) and any(v is not None and "path" in norm.raw(v) for _d, v in kdefs.defs.get(a.slice.id, []))))]
+    if not keyed:
+        chk.analysis_error("C16.identity.path: `self._cookies[(domain, path)]` not found in CookieJar.update_cookies")
+    elif merges:
+        chk.violation("C16.identity.path", merges[0], K.short(merges[0]), "if path == '/': path = ''   (the store is keyed by the exact Path)",
+                      "the store, the expiry table and the host-only table are keyed by `path.rstrip('/')`: `sid=B; Path=/app/` overwrites `sid=A; Path=/app` (a request for /app then gets no cookie at all), `sid=; Path=/app/; Max-Age=0` deletes the /app session cookie, and `Path=/app//` displaces it too - a reference store keeps them apart")
+    else:
+        chk.ok("C16.identity.path", keyed[0], "update_cookies(): the store key is the cookie's Path as it stands (only the root is filed as '')")
+    # ---- C16.match.arg: a domain taken from the application is brought into the stored form before it is matched -----------------------------------------
+    cd = repo.func(MOD, f"{CJ}.clear_domain")
+    par = cd.node.args.args[1].arg
+    dvals = [v for _d, v in norm.fn_defs(cd.node).defs.get(par, []) if v is not None]
+    if any(".lower()" in norm.raw(v) for v in dvals) or any(".lower()" in norm.raw(c) for c in prog.calls_in(cd.node) if "_is_domain_match" in norm.raw(c.func)):
+        chk.ok("C16.match.arg", cd, "clear_domain(): the argument is lower-cased (stored domains are) before it is matched")
+    else:
+        chk.violation("C16.match.arg", cd, K.short(cd.node.body[-1]), f"{par} = {par}.lower().removeprefix('.')",
+                      "clear_domain() hands its argument to the domain match as it was written: stored domains are lower-case and carry no leading dot, so clear_domain('Example.com'), ('EXAMPLE.COM') and ('.example.com') silently clear nothing and the cookies are still attached afterwards")
 
 
 def hunt4_rules(chk, repo):
